@@ -1017,7 +1017,7 @@ fn generate(ctx: &Ctx) {
   run_tree(ctx, "tree did:m: (wide alphabet)", &SIGMA_WIDE, &["did:m:"], nw);
   // token-level tree (amendment): tails of "did:m:x", and the same sequences as setter / join arguments
   let nt = ctx.by_tier(3u32, 4u32);
-  run_tree(ctx, "token tree did:m:x", &TOKENS, &["did:m:x", "did:m:"], nt);
+  run_tree(ctx, "token tree did:m:x", &TOKENS, &["did:m:x", "did:m:", "did:m:%41/", "did:m:%41?", "did:m:%41#", "did:m:x/p?q#"], nt);
   run_token_ops(ctx, nt);
   // (b) leading whitespace / control / non-ASCII space, and perturbed heads
   let lead: Vec<String> = [" ", "\n", "\t", "\r", "\u{0}", "\u{1f}", "\u{7f}", "\u{a0}", "\u{feff}", "  ", "\r\n", " \n\t "].iter().map(|w| format!("{w}did:m:")).collect();
